@@ -213,6 +213,8 @@ func runC14(c *Check) {
 	c.heapHeaderAllocColumns()
 	c.rebaseCurrentFirstMapping()
 	c.locationKeyIsAddress()
+	c.unsampledRateOne()
+	c.replacerAccumulates()
 }
 
 // signalFrameRemoval (R6): the binary CPU parser removes the frame at position 1 only from
